@@ -34,6 +34,11 @@ function genCase(index) {
     pre: rng.pick(["empty", "other", "whitespace", "same", "empty"]),
     verbose: rng.chance(1, 4),
     twice: rng.chance(1, 3),
+    // how the project is named and spelled: a path relative to the working directory, a directory reached
+    // through a symbolic link, the same project file with its keys in another order and other white space
+    relative: rng.chance(1, 4),
+    symlink: rng.chance(1, 4),
+    respelled: rng.chance(1, 4),
   };
 }
 
@@ -58,8 +63,10 @@ function runCase(T, c, dir, applyVariants) {
   if (c.module) proj.module = c.module;
   fs.writeFileSync(path.join(dir, "entry.ts"), "export type T = string;\n");
   fs.writeFileSync(path.join(dir, "beff.json"), JSON.stringify(proj));
-  const once = (verbose) => {
-    globalThis.__beff_cli_opts = { watch: false, project: path.join(dir, "beff.json"), verbose };
+  const link = dir + "_link";
+  fs.rmSync(link, { recursive: true, force: true });
+  const once = (verbose, project = path.join(dir, "beff.json")) => {
+    globalThis.__beff_cli_opts = { watch: false, project, verbose };
     globalThis.__wasm_behaviour = { reads: () => [path.join(dir, "entry.ts")], result: () => c.code };
     const cwd = process.cwd();
     try {
@@ -69,7 +76,7 @@ function runCase(T, c, dir, applyVariants) {
       process.chdir(cwd);
     }
     const f = path.join(dir, "gen/parser.js");
-    const calls = (globalThis.__wasm_calls || []).filter((x) => x.name === "bundle_to_string_v2").map((x) => x.args.map((a) => String(a).split(dir).join("<P>")));
+    const calls = (globalThis.__wasm_calls || []).filter((x) => x.name === "bundle_to_string_v2").map((x) => x.args.map((a) => String(a).split(link).join("<P>").split(dir).join("<P>")));
     return { parser: fs.existsSync(f) ? fs.readFileSync(f, "utf8") : null, calls };
   };
   const first = once(false);
@@ -85,6 +92,19 @@ function runCase(T, c, dir, applyVariants) {
   }
   if (c.verbose) results.push({ variant: "verbose", ...once(true) });
   if (c.twice) results.push({ variant: "second run of the host in the process", ...once(false) });
+  if (c.relative) results.push({ variant: "project path relative to the working directory", ...once(false, path.relative(process.cwd(), path.join(dir, "beff.json")) || "beff.json") });
+  if (c.symlink) {
+    try {
+      fs.symlinkSync(dir, link, "dir");
+      results.push({ variant: "project directory reached through a symbolic link", ...once(false, path.join(link, "beff.json")) });
+    } catch {}
+    fs.rmSync(link, { recursive: true, force: true });
+  }
+  if (c.respelled) {
+    const keys = Object.keys(proj).reverse();
+    fs.writeFileSync(path.join(dir, "beff.json"), JSON.stringify(Object.fromEntries(keys.map((k) => [k, proj[k]])), null, "\t") + "\n\n");
+    results.push({ variant: "project file with its keys in another order and other white space", ...once(false) });
+  }
   return results;
 }
 
@@ -108,8 +128,8 @@ function child(casesFile, outFile) {
 
 const ENVS = [
   { name: "base", env: {}, cwd: HOME },
-  { name: "cs_CZ, Asia/Tokyo, cwd /", env: { LC_ALL: "cs_CZ.UTF-8", LANG: "cs_CZ.UTF-8", TZ: "Asia/Tokyo", NO_COLOR: "1" }, cwd: "/" },
-  { name: "sv_SE, America/St_Johns", env: { LC_ALL: "sv_SE.UTF-8", LANG: "sv_SE.UTF-8", TZ: "America/St_Johns", FORCE_COLOR: "1" }, cwd: OUT },
+  { name: "cs_CZ, Asia/Tokyo, cwd /", env: { LC_ALL: "cs_CZ.UTF-8", LANG: "cs_CZ.UTF-8", TZ: "Asia/Tokyo", NO_COLOR: "1", NODE_ENV: "production", CI: "true", TERM: "dumb", HOME: "/nonexistent", USER: "nobody" }, cwd: "/" },
+  { name: "sv_SE, America/St_Johns", env: { LC_ALL: "sv_SE.UTF-8", LANG: "sv_SE.UTF-8", TZ: "America/St_Johns", FORCE_COLOR: "1", NODE_ENV: "development", DEBUG: "*", TMPDIR: "/var/tmp", npm_config_user_agent: "pnpm/9.0.0" }, cwd: OUT },
 ];
 
 function runAll(cases) {
